@@ -227,7 +227,7 @@ func run(tier string) int {
 		ch <- i
 	}
 	close(ch)
-	var seqDone, seqEvals, seqSteps int64
+	var seqDone, seqEvals, seqSteps, seqResumed int64
 	var seqSample *sequenceResult
 	workers := runtime.NumCPU()
 	if workers > 8 {
@@ -256,6 +256,7 @@ func run(tier string) int {
 					seqDone++
 					for _, st := range res.Steps {
 						seqSteps++
+						seqResumed += int64(st.Resumed)
 						cases := len(st.Outcomes) + 1
 						evals += int64(cases)
 						seqEvals += int64(cases)
@@ -387,6 +388,7 @@ func run(tier string) int {
 		fmt.Fprintf(os.Stderr, "machinery: %d scenarios could not be run; first: %v\n", machN, firstMach.Load())
 		return 2
 	}
+	// seqResumed == 0 is legitimate (a server that issues no session tickets); the count is reported
 	exhaustive := stopped == 0 && int(done) == len(scs) && int(seqDone) == len(seqs)
 
 	// samples
@@ -488,7 +490,7 @@ func run(tier string) int {
 				"%d scenarios = certificate kind x tenant{A,B} x chain entry under (CN,serial){absent, same DER valid, same DER revoked, other DER valid (=presented one is a forgery), other DER revoked} "+
 				"x background{other tenant holds the same serial, same owner holds another serial} x presentation{single, leaf+extra} x serial%s + no-certificate scenarios; "+
 				"each scenario = one direct VerifyPeerCertificate call + %d requests over real TLS 1.3 (every route of newRouter found by mux.Walk x dseq{own, other tenant's, non-numeric, uint64 overflow%s} x query{none, owner/provider/dseq naming the other tenant}). "+
-				"SEQUENCES on one gateway instance (one rest.NewServer / TLS config / chain): %d = every ordered pair%s of %d presentables {genuine, genuine other serial, other tenant's genuine, registered-but-expired/server-auth/not-yet-valid, registered self-signed whose issuer field names the other tenant, forgeries copying CN+serial (proper, expired, server-auth, CA-issued, foreign issuer name), forged other serial, unknown serial, forged other tenant, CN no account, no certificate} x op before the second step{none, revoke genuine, revoke other tenant's genuine} x role{A,B}; every step = 3 TLS requests + one callback call, judged by the same oracle as in isolation against the chain state at that moment. "+
+				"SEQUENCES on one gateway instance (one rest.NewServer / TLS config / chain): %d = every ordered pair%s of %d presentables {genuine, genuine other serial, other tenant's genuine, registered-but-expired/server-auth/not-yet-valid, registered self-signed whose issuer field names the other tenant, forgeries copying CN+serial (proper, expired, server-auth, CA-issued, foreign issuer name), forged other serial, unknown serial, forged other tenant, CN no account, no certificate} x op before the second step{none, revoke genuine, revoke other tenant's genuine} x role{A,B}; plus every presentable shown twice by a client that keeps a TLS session cache (so the second connection RESUMES the session) x the same ops and roles; every step = 3 TLS requests + one callback call, judged by the same oracle as in isolation against the chain state at that moment. "+
 				"The chain is the real x/cert keeper written through the real msg server and read through the real gRPC querier; scope is judged against the account that published the certificate (subject CN). "+
 				"A case (scenario, request or callback) is non-trivial when a client certificate is presented and the route is lease/deployment-scoped (the authentication decision matters); distinct = set of canonical JSON encodings. "+
 				"Oracle classes (non-trivial cases): must-accept=%d, must-reject=%d, left-to-implementation=%d; observed reached-provider=%d, refused=%d.",
@@ -498,22 +500,23 @@ func run(tier string) int {
 			Samples:    samples,
 			Exhaustive: exhaustive,
 			Extra: map[string]interface{}{
-				"scenarios":             len(scs),
-				"sequences":             len(seqs),
-				"sequences_run":         seqDone,
-				"sequence_steps":        seqSteps,
-				"sequence_evaluations":  seqEvals,
-				"scenarios_run":         done,
-				"routes":                routes,
-				"oracle_must_accept":    acceptExp,
-				"oracle_must_reject":    rejectExp,
-				"oracle_unconstrained":  dontCare,
-				"observed_accept":       acceptObs,
-				"observed_reject":       rejectObs,
-				"direct_callback_calls": directCalls,
-				"real_querier_calls":    queries,
-				"violation_signatures":  sigSummary,
-				"workers":               workers,
+				"scenarios":                    len(scs),
+				"sequences":                    len(seqs),
+				"sequences_run":                seqDone,
+				"sequence_steps":               seqSteps,
+				"sequence_connections_resumed": seqResumed,
+				"sequence_evaluations":         seqEvals,
+				"scenarios_run":                done,
+				"routes":                       routes,
+				"oracle_must_accept":           acceptExp,
+				"oracle_must_reject":           rejectExp,
+				"oracle_unconstrained":         dontCare,
+				"observed_accept":              acceptObs,
+				"observed_reject":              rejectObs,
+				"direct_callback_calls":        directCalls,
+				"real_querier_calls":           queries,
+				"violation_signatures":         sigSummary,
+				"workers":                      workers,
 			},
 		},
 		Assumptions: []string{
@@ -531,7 +534,7 @@ func run(tier string) int {
 		fmt.Fprintln(os.Stderr, "machinery: evidence:", err)
 		return 2
 	}
-	fmt.Printf("C09 %s: sequences=%d (steps %d, evaluations %d); ", tier, len(seqs), seqSteps, seqEvals)
+	fmt.Printf("C09 %s: sequences=%d (steps %d, evaluations %d, resumed TLS connections %d); ", tier, len(seqs), seqSteps, seqEvals, seqResumed)
 	fmt.Printf("scenarios=%[2]d evaluations=%[3]d distinct_nontrivial=%d must-accept=%d must-reject=%d unconstrained=%d observed accept=%d reject=%d exhaustive=%v signatures=%d wall=%.1fs\n",
 		tier, len(scs), evals, len(distinct), acceptExp, rejectExp, dontCare, acceptObs, rejectObs, exhaustive, len(sigs), time.Since(start).Seconds())
 	return exit
